@@ -158,6 +158,8 @@ def in_enclosure(x, v, rel=1e-9, abs_=0.0):
     if r is None:
         return math.isnan(x)
     lo, hi = float(r[0]), float(r[1])
+    if not math.isfinite(x):
+        return False          # (an infinite value would widen its own tolerance to infinity and pass any enclosure)
     tol = abs_ + rel * max(abs(lo), abs(hi), abs(x))
     return lo - tol <= x <= hi + tol
 
